@@ -65,9 +65,12 @@ def body_factory(ctx):
 
     def body(case):
         arr = _arr(case) if case["arr"] else None
+        nt_, nb_, st_ = case["n_tasks"], case["n_batches"], case["start"]
+        if case.get("np_ints"):
+            # callers pass numpy integers too (len() of arrays, pool sizes, ...)
+            nt_, nb_, st_ = np.int64(nt_), np.int64(nb_), np.int64(st_)
         with ctx.sut("batch_tasks"):
-            tasks = batch_tasks(case["n_tasks"], case["n_batches"], arr=arr, args=("argA", 17),
-                                start_idx=case["start"])
+            tasks = batch_tasks(nt_, nb_, arr=arr, args=("argA", 17), start_idx=st_)
         check_partition(case, tasks)
         nt, nb = case["n_tasks"], case["n_batches"]
         nontrivial = (nb > 1 and nt % nb != 0) or nb > nt or case["start"] > 0
@@ -205,7 +208,8 @@ def run(ctx):
         nt = draw(st.integers(1, 10**9))
         # the loop is O(n_batches): keep n_batches small, or larger than n_tasks (single-batch fallback)
         nb = draw(st.one_of(st.integers(1, min(nt, 3000)), st.integers(nt + 1, 10**12)))
-        return {"n_tasks": nt, "n_batches": nb, "start": draw(st.integers(0, 10**9)), "arr": False}
+        return {"n_tasks": nt, "n_batches": nb, "start": draw(st.integers(0, 10**9)), "arr": False,
+                "np_ints": draw(st.booleans())}
 
     big_arr = st.builds(
         lambda nt, nb, s: {"n_tasks": nt, "n_batches": nb, "start": s, "arr": True},
